@@ -559,7 +559,15 @@ class UserSecurityModel(
         security = USMSecurityParameters.decode(
             response_msg.security_parameters
         )
-        wrapped_vars = response_msg.scoped_pdu.data.value.varbinds
+        try:
+            wrapped_vars = response_msg.scoped_pdu.data.value.varbinds
+        except ErrorResponse as exc:
+            # Discovery responses are not authenticated. An error-status in
+            # them must not be interpreted like the error-status of a
+            # response (f.ex. "noSuchName" silently ends a walk).
+            raise SnmpError(
+                "Invalid discovery response (unexpected error-status)"
+            ) from exc
         if not wrapped_vars:
             raise SnmpError("Invalid discovery response (no varbinds returned)")
         unknown_engine_id_var = wrapped_vars[0]
@@ -607,7 +615,11 @@ def validate_usm_message(message: PlainMessage) -> None:
         ObjectIdentifier("1.3.6.1.6.3.15.1.1.6.0"): "Unable to decrypt",
     }
     for varbind in pdu.varbinds:
-        if varbind.oid == ObjectIdentifier("1.3.6.1.6.3.15.1.1.2.0"):
+        if (
+            varbind.oid == ObjectIdentifier("1.3.6.1.6.3.15.1.1.2.0")
+            and message.header.flags.auth
+        ):
+            # Only an authenticated report may trigger a new discovery
             raise NotInTimeWindow(
                 str(varbind.oid), varbind.value.pythonize(), "remote device"
             )
